@@ -37,6 +37,7 @@ type Program struct {
 	chaCG  *callgraph.Graph
 	useCHA bool
 	Tags   string
+	cache  map[string]any // per-program memo of expensive analyses
 }
 
 // BrokenError marks a failure of the machinery itself (unresolved anchor,
@@ -89,7 +90,7 @@ func Load(opt LoadOptions) *Program {
 	if err != nil {
 		broken("go/packages: %v", err)
 	}
-	p := &Program{Repo: opt.Repo, ByPath: map[string]*packages.Package{}, Tags: opt.Tags}
+	p := &Program{Repo: opt.Repo, ByPath: map[string]*packages.Package{}, Tags: opt.Tags, cache: map[string]any{}}
 	var errs []string
 	packages.Visit(initial, nil, func(pkg *packages.Package) {
 		p.All = append(p.All, pkg)
